@@ -63,6 +63,12 @@ def check_stat(ctx, case):
                 if bi < len(mid) and mid[bi]:
                     r = must(case, '%s.compute between batches' % kind, obj.compute)   # must not disturb what follows
                     held.append((bi, r, np.array(r, copy=True)))
+                if case.get('copy_after') is not None and bi == int(case['copy_after'][0]):
+                    # the analysis is forked at a checkpoint: a deep copy (or a pickle round trip) of the distinguisher goes on with the remaining batches
+                    import copy
+                    import pickle
+                    obj = must(case, '%s of the %s distinguisher after batch %d' % (case['copy_after'][1], kind, bi + 1),
+                               copy.deepcopy if case['copy_after'][1] == 'deepcopy' else (lambda o: pickle.loads(pickle.dumps(o))), obj)
         res = must(case, '%s.compute' % kind, obj.compute)
         for bi, r, snapshot in held:
             # a result obtained earlier stays what it was: it is the statistic of the batches processed up to then
@@ -113,7 +119,7 @@ def check_stat(ctx, case):
                 raise Violation('%s: |r| = %r > 1' % (kind, g), case)
     nontrivial = (n_undef > 0 and n_def > 0) or data.ndim >= 3
     ctx.case(case, nontrivial, ['kind:' + kind, 'prec:' + precision, 'regime:' + regime, 'word_ndim:%d' % (data.ndim - 1),
-                                'has_undefined' if n_undef else 'all_defined', 'batches:%d' % (len(cuts) - 1), 'tdtype:' + str(traces.dtype), 'layout:%s/%s' % tuple(case.get('layout') or ('C', 'C'))] + (['same_buffer_refilled'] if case.get('same_buffer') else []) + (['same_arrays_fed_to_a_second_distinguisher'] if case.get('feed_again') and not case.get('same_buffer') else []) + (['compute_before_final'] if any(mid) or case.get('compute_twice') else []))
+                                'has_undefined' if n_undef else 'all_defined', 'batches:%d' % (len(cuts) - 1), 'tdtype:' + str(traces.dtype), 'layout:%s/%s' % tuple(case.get('layout') or ('C', 'C'))] + (['same_buffer_refilled'] if case.get('same_buffer') else []) + (['continued_on_a_%s' % case['copy_after'][1]] if case.get('copy_after') else []) + (['same_arrays_fed_to_a_second_distinguisher'] if case.get('feed_again') and not case.get('same_buffer') else []) + (['compute_before_final'] if any(mid) or case.get('compute_twice') else []))
 
 
 def replay(ctx, case):
@@ -205,7 +211,9 @@ def stat_cases(draw, kind, large=False):
             sd = leak.std()
             if sd > 0:
                 base[:, 0] += (leak - leak.mean()) / sd * draw(st.sampled_from([0.0, 0.5, 2.0]))
-        traces = base.astype(tdt)
+        # the same signal in another unit (amperes instead of ADC codes): Pearson's r does not depend on it, the difference of means scales with it
+        unit = draw(st.sampled_from([1.0, 1.0, 1e-9, 1e-6, 1e3]))
+        traces = (base * unit).astype(tdt)
     data = data.reshape((n,) + tuple(wshape)) if wshape else (data.reshape(n) if draw(st.booleans()) else data.reshape(n, 1))
     ncuts = draw(st.integers(0, 2))
     cuts = sorted(draw(st.lists(st.integers(1, n - 1), min_size=ncuts, max_size=ncuts))) if n > 1 else []
@@ -220,7 +228,8 @@ def stat_cases(draw, kind, large=False):
     # memory layout of what the caller passes: C order, Fortran order, strided and negative-stride views (values are the same)
     layout = [draw(st.sampled_from(gen.LAYOUTS)), draw(st.sampled_from(gen.LAYOUTS))]
     return {'kind': 'stat', 'dist': kind, 'precision': precision, 'regime': regime, 'traces': traces, 'data': data, 'cuts': cuts, 'layout': layout, 'same_buffer': same_buffer,
-            'mid_computes': mid, 'compute_twice': draw(st.booleans()), 'feed_again': draw(st.integers(0, 3)) == 0}
+            'mid_computes': mid, 'compute_twice': draw(st.booleans()), 'feed_again': draw(st.integers(0, 3)) == 0,
+            'copy_after': [draw(st.integers(0, len(cuts))), draw(st.sampled_from(['deepcopy', 'pickle']))] if draw(st.integers(0, 3)) == 0 else None}
 
 
 def unit_generated(ctx, kind, n, large=False):
